@@ -1504,6 +1504,16 @@ class FunctionNode(AstNode):
                     self.have_template_args = True
                     break
 
+        # add any attributes from YAML files to the ast
+        if "attrs" in kwargs:
+            attrs = kwargs["attrs"]
+            for arg in ast.params:
+                name = arg.name
+                if name in attrs:
+                    arg.attrs.update(attrs[name])
+        if "fattrs" in kwargs:
+            ast.attrs.update(kwargs["fattrs"])
+
         # Compute full param list for each generic specification
         # by copying original params then substituting decls from fortran_generic.
         for generic in self.fortran_generic:
@@ -1521,16 +1531,6 @@ class FunctionNode(AstNode):
                 else:
                     newdecls[i] = garg
             generic.decls = newdecls
-
-        # add any attributes from YAML files to the ast
-        if "attrs" in kwargs:
-            attrs = kwargs["attrs"]
-            for arg in ast.params:
-                name = arg.name
-                if name in attrs:
-                    arg.attrs.update(attrs[name])
-        if "fattrs" in kwargs:
-            ast.attrs.update(kwargs["fattrs"])
 
         if "splicer" in kwargs:
             self.splicer = kwargs["splicer"]
